@@ -74,6 +74,7 @@ TRANSLATORS = [("tr_limiters.py", "Gen/Limiters.v"), ("tr_labels.py", "Gen/Label
 def regenerate():
     """Run every translator against the current /repo tree. Returns list of (translator, message) failures."""
     fails = []
+    os.makedirs(os.path.join(COQ, "Gen"), exist_ok=True)
     for script, dst in TRANSLATORS:
         sp = os.path.join(VERIF, "tools", script)
         if not os.path.exists(sp):
